@@ -554,7 +554,7 @@ Section StepN.
       apply cnt_In in Hz. pose proof (Hcn_term (thr s) (nthr s) t z Ht).
       pose proof (Hcn_upd (thr s) (nthr s) t T' g Ht) as E. rewrite Hh in E.
       constructor; rewrite ?wqz_set_thr, ?wqz_set_fs; cbn [thr nthr dq fstt set_thr set_fs];
-        unfold upd; destruct (Nat.eqb_spec g z); try subst g; try lia.
+        unfold upd in *; destruct (Nat.eqb_spec g z); try subst g; try lia.
   Qed.
 
   Lemma stepN_PBlockW : pc (thr s t) = PBlockW -> InvN N own (fst (step s t)).
@@ -583,7 +583,7 @@ Section StepN.
     pose proof Hloc as L. unfold lokN in L. rewrite Hpc in L.
     destruct (dq s (sfrom s t)) eqn:EF; cbn [fst];
       (apply inv_thr_only; auto; try (rewrite Hpc; discriminate); try discriminate;
-       [unfold held; rewrite Hpc; reflexivity|unfold lokN; cbn; auto]).
+       try (unfold held; rewrite Hpc; reflexivity); unfold lokN; cbn; auto).
   Qed.
 
   Lemma stepN_PN2 k : pc (thr s t) = PN2 k -> InvN N own (fst (step s t)).
@@ -603,5 +603,61 @@ Section StepN.
     apply inv_thr_only; auto; try (rewrite Hpc; discriminate); try discriminate.
     - unfold held. rewrite Hpc. reflexivity.
     - unfold lokN; cbn. tauto.
+  Qed.
+
+  Lemma stepN_PN4 k tmp sv : pc (thr s t) = PN4 k tmp sv -> InvN N own (fst (step s t)).
+  Proof.
+    intros Hpc. unfold step. rewrite Hpc. cbn [fst].
+    pose proof Hloc as L. unfold lokN in L. rewrite Hpc in L. destruct L as (Hk & HF & Htmp & Hsv).
+    assert (Hto : sto s t = 4 * t + 3 - sfrom s t) by (apply Hto'; rewrite Hpc; discriminate).
+    assert (Hh : held (thr s t) = opt (cur (thr s t))) by (unfold held; rewrite Hpc; reflexivity).
+    mkN N own s t I0 Ht; [reflexivity|exact Hts|reflexivity| | | | |exact Hprog|].
+    - oth_tac I0 Ht ltac:(fun u Hne Hu => apply (keeps_same N own s u (thr s u)); apply (m_loc N own s I0 u Hu)).
+    - cbn [sfrom set_thr set_from]. rewrite upd_same. destruct Hfrom; lia.
+    - intros H. exfalso. eapply H. reflexivity.
+    - intros g. fibN Hfib Ht Hh g.
+    - unfold lokN, kokN in *; cbn [pc cur with_pc sto sfrom set_from set_thr fstt]. rewrite upd_same.
+      split; [exact Hk|]. destruct Hfrom; lia.
+  Qed.
+
+  Lemma stepN_PN5 k tmp : pc (thr s t) = PN5 k tmp -> InvN N own (fst (step s t)).
+  Proof.
+    intros Hpc. unfold step. rewrite Hpc. cbn [fst].
+    pose proof Hloc as L. unfold lokN in L. rewrite Hpc in L. destruct L as (Hk & Hst & Htmp).
+    assert (Hh : held (thr s t) = opt (cur (thr s t))) by (unfold held; rewrite Hpc; reflexivity).
+    mkN N own s t I0 Ht; [reflexivity|exact Hts|reflexivity| |exact Hfrom| | |exact Hprog|].
+    - oth_tac I0 Ht ltac:(fun u Hne Hu => apply (keeps_same N own s u (thr s u)); apply (m_loc N own s I0 u Hu)).
+    - intros _. cbn [sto sfrom set_thr set_to]. rewrite upd_same. exact Htmp.
+    - intros g. fibN Hfib Ht Hh g.
+    - unfold lokN; cbn. exact Hk.
+  Qed.
+
+  Lemma stepN_PN6 k : pc (thr s t) = PN6 k -> InvN N own (fst (step s t)).
+  Proof.
+    intros Hpc. unfold step. rewrite Hpc.
+    pose proof Hloc as L. unfold lokN in L. rewrite Hpc in L.
+    assert (Hn5 : forall k0 tmp, pc (thr s t) <> PN5 k0 tmp) by (rewrite Hpc; discriminate).
+    assert (Hh : held (thr s t) = opt (cur (thr s t))) by (unfold held; rewrite Hpc; reflexivity).
+    destruct (dq s (sfrom s t)) eqn:EF.
+    - unfold next_ret. destruct k; try contradiction.
+      + destruct L as (Hc & H13 & H3 & Hc13).
+        destruct (Z.eqb_spec st 3) as [E3|E3].
+        * (* the blocked fiber is parked *)
+          match goal with |- context [finish ?a ?b ?c ?d] => destruct (finish a b c d) as [e1 T1] eqn:EX end.
+          cbn [fst]. replace T1 with (snd (finish t (thr s t) 0 (Zn 0))) by (rewrite EX; reflexivity).
+          assert (Hr0 : runN (set_wq s (cur (thr s t)) true) 0) by (left; reflexivity).
+          destruct (finish_specN N own (set_wq s (cur (thr s t)) true) t (thr s t) 0 (Zn 0) Hprog Hr0)
+            as (Hc' & Hp' & Hl & Hh' & Hs).
+          mkN N own s t I0 Ht; [reflexivity|exact Hts|reflexivity| |exact Hfrom| | |exact Hp'|exact Hl].
+          -- oth_tac I0 Ht ltac:(fun u Hne Hu => apply (keeps_same N own s u (thr s u)); apply (m_loc N own s I0 u Hu)).
+          -- intros _. apply Hto'; auto.
+          -- intros g. specialize (H3 E3). fibN2 Hfib Ht Hh Hh' g.
+        * match goal with |- context [finish ?a ?b ?c ?d] => destruct (finish a b c d) as [e1 T1] eqn:EX end.
+          cbn [fst]. replace T1 with (snd (finish t (thr s t) (cur (thr s t)) (Zn (cur (thr s t))))) by (rewrite EX; reflexivity).
+          apply inv_finish_only; auto. right; auto.
+      + match goal with |- context [finish ?a ?b ?c ?d] => destruct (finish a b c d) as [e1 T1] eqn:EX end.
+        cbn [fst]. replace T1 with (snd (finish t (thr s t) (cur (thr s t)) (Zn (cur (thr s t))))) by (rewrite EX; reflexivity).
+        apply inv_finish_only; auto. left; exact L.
+    - cbn [fst]. apply inv_thr_only; auto; try discriminate. unfold lokN; cbn. exact L.
   Qed.
 End StepN.
